@@ -40,15 +40,17 @@ class ContentAnalysis(BufferAnalysis):
         self.track_source = track_source
         self.sig = {}
         self.hlocals = {}
+        self.answer_locals = {}
         for f, fr in self.frames.items():
             for n, c, txt, sigs in classify_sites(f):
                 self.sig[id(c)] = sigs
             self.hlocals[f] = self._handler_locals(f, fr)
+            self.answer_locals[f] = self._answer_locals(f)
             for v in self.hlocals[f]:
                 self.names.append(self.dvar(fr, v))
                 self.names.append(self.evar(fr, v))
         self.names.append('D:' + CUR)
-        self.names.extend(['E:' + CUR, 'D:@lastfn', 'E:@lastfn', 'NX', 'KS', 'Wm', 'Wq'])
+        self.names.extend(['E:' + CUR, 'D:@state', 'D:@lastfn', 'E:@lastfn', 'NX', 'KS', 'Wm', 'Wq'])
         self.kvars = {}
         for fr in self.frames.values():
             for b, L in fr.bufenv.items():
@@ -104,6 +106,35 @@ class ContentAnalysis(BufferAnalysis):
                         changed = True
         return out
 
+    def _answer_locals(self, f):
+        """locals that only ever hold a handler's answer or a status constant (never None for a chart that follows the protocol)"""
+        vals = {}
+        for n in ast.walk(f.node):
+            if isinstance(n, ast.Assign):
+                for t in n.targets:
+                    if isinstance(t, ast.Tuple) and isinstance(n.value, ast.Tuple) and len(t.elts) == len(n.value.elts):
+                        for a, b in zip(t.elts, n.value.elts):
+                            if isinstance(a, ast.Name):
+                                vals.setdefault(a.id, []).append(b)
+                    elif isinstance(t, ast.Name):
+                        vals.setdefault(t.id, []).append(n.value)
+                    else:
+                        for x in ast.walk(t):
+                            if isinstance(x, ast.Name) and isinstance(x.ctx, ast.Store):
+                                vals.setdefault(x.id, []).append(None)
+            elif isinstance(n, (ast.AugAssign, ast.For, ast.With, ast.NamedExpr)):
+                tg = n.target if not isinstance(n, ast.With) else None
+                for x in (ast.walk(tg) if tg is not None else []):
+                    if isinstance(x, ast.Name):
+                        vals.setdefault(x.id, []).append(None)
+        out = set()
+        for name, vs in vals.items():
+            if name in f.params:
+                continue
+            if all(v is not None and ((isinstance(v, ast.Call) and id(v) in self.sig) or status_const(v) is not None) for v in vs):
+                out.add(name)
+        return out
+
     def is_cursor(self, e, fr):
         return dotted(e) == fr.func.params[0] + '.temp.fun'
 
@@ -122,6 +153,8 @@ class ContentAnalysis(BufferAnalysis):
         elif self.is_statefun(e, fr):
             if fl.get('s:@state') == 'S':
                 S = ('0', 0)
+            if fl.get('o:@state') == 'T':
+                T = ('D:@state', 0)
         elif isinstance(e, ast.Name) and e.id in self.hlocals.get(fr.func, ()):
             if fl.get(self.okey(fr, e.id)) == 'T':
                 T = (self.dvar(fr, e.id), 0)
@@ -176,6 +209,12 @@ class ContentAnalysis(BufferAnalysis):
         z.assign('D:' + CUR, '0', 0)
         for K in self.kvars.values():
             z.assign(K, '0', -1)
+        if not user and fl.get('lastvar') and fl.get('lastvar') != CUR:
+            # H3 for a well-formed chart: the target of an initial transition is a proper descendant of the state that takes it
+            base = fl['lastvar']
+            fl['o:' + base] = 'T'
+            z.forget('D:' + base)
+            z.le('0', 'D:' + base, -1)         # depth >= 1
         if self.track_source:
             if user and fl.get('s:@lastfn') == 'S':
                 fl['ks'] = '1'
@@ -214,6 +253,7 @@ class ContentAnalysis(BufferAnalysis):
                 # remember who was asked (both chains), for answers that are tested later
                 self.set_h('@lastfn', hv, fl, z)
                 fl['lastsig'] = ','.join(sorted(sigs))
+                fl['lastvar'] = CUR if self.is_cursor(c.func, fr) else ('%s.%s' % (fr.prefix, c.func.id) if isinstance(c.func, ast.Name) and c.func.id in self.hlocals.get(fr.func, ()) else '')
                 if sigs and sigs <= {'SUPER', 'EMPTY'} and (hv[0] is not None or hv[1] is not None):
                     self.set_h(CUR, self.shift(hv, 1), fl, z)
                 else:
@@ -250,6 +290,8 @@ class ContentAnalysis(BufferAnalysis):
         if self.is_statefun(tgt, fr):
             def f(fl, z):
                 fl.pop('s:@state', None)
+                fl.pop('o:@state', None)
+                z.forget('D:@state')
                 return (fl, z)
             return st.map(f)
         base = CUR if self.is_cursor(tgt, fr) else ('%s.%s' % (fr.prefix, tgt.id) if isinstance(tgt, ast.Name) and tgt.id in self.hlocals.get(fr.func, ()) else None)
@@ -257,6 +299,8 @@ class ContentAnalysis(BufferAnalysis):
             def f(fl, z):
                 hv = self.hval(val, fr, fl, z) if val is not None else None
                 self.set_h(base, hv, fl, z)
+                if isinstance(val, ast.Constant) and val.value is None:
+                    fl['o:' + base] = 'N'       # holds None, not a handler
                 return (fl, z)
             return st.map(f)
         return super().assign1(st, tgt, val, fr)
@@ -365,6 +409,11 @@ class ContentAnalysis(BufferAnalysis):
                 return st2
         if isinstance(s, ast.Return) and self.track_source and fr.func is not self.entry:
             self.check_lca(st, s, fr)
+        if isinstance(s, ast.Raise):
+            def f(fl, z):
+                self.rec('O7-noraise', fr, s, 'FAIL(reachable for a chart that follows the protocol)', '%s %s' % (fl, z.show()))
+                return (fl, z)
+            st.map(f)
         return super().stmt(s, st, fr, ctl)
 
     def check_lca(self, st, s, fr):
@@ -397,6 +446,8 @@ class ContentAnalysis(BufferAnalysis):
         if self.is_statefun(tgt, fr):
             def f(fl, z):
                 fl.pop('s:@state', None)
+                fl.pop('o:@state', None)
+                z.forget('D:@state')
                 return (fl, z)
             return st.map(f)
         base = CUR if self.is_cursor(tgt, fr) else ('%s.%s' % (fr.prefix, tgt.id) if isinstance(tgt, ast.Name) and tgt.id in self.hlocals.get(fr.func, ()) else None)
@@ -412,6 +463,12 @@ class ContentAnalysis(BufferAnalysis):
         st = super().guard(st, test, pol, fr)
         if isinstance(test, ast.Compare) and len(test.ops) == 1:
             l, op, r = test.left, type(test.ops[0]), test.comparators[0]
+            # H1-H3: a handler always answers with a status; a local that only ever holds answers / status constants is never None
+            for a, b in ((l, r), (r, l)):
+                if isinstance(b, ast.Constant) and b.value is None and isinstance(a, ast.Name) and a.id in self.answer_locals.get(fr.func, ()):
+                    is_none = (op in (ast.Is, ast.Eq)) == pol
+                    if op in (ast.Is, ast.Eq, ast.IsNot, ast.NotEq) and is_none:
+                        return BOT()
             sc = status_const(r) or status_const(l)
             other = l if status_const(r) else r
             direct = isinstance(other, ast.Call) and id(other) in self.sig
@@ -451,6 +508,13 @@ class ContentAnalysis(BufferAnalysis):
                     def f(fl, z):
                         a = self.hval(l, fr, fl, z)
                         b = self.hval(r, fr, fl, z)
+                        # the cursor always holds a handler: it is never equal to None
+                        for x, y in ((l, r), (r, l)):
+                            none = (isinstance(x, ast.Constant) and x.value is None) or \
+                                (isinstance(x, ast.Name) and fl.get(self.okey(fr, x.id)) == 'N')
+                            if none and (self.is_cursor(y, fr) or self.is_statefun(y, fr)):
+                                z.bot = True
+                                return (fl, z)
                         # a tree has no repeated ancestors: equal states of one chain have equal depth
                         for i in (0, 1):
                             if a[i] is not None and b[i] is not None:
@@ -498,6 +562,9 @@ class ContentAnalysis(BufferAnalysis):
         if self.cursor_at_entry:
             fl['o:' + CUR] = 'T'
             z.assign('D:' + CUR, '0', 0)
+            # start_at leaves state.fun on the state enclosing everything (ORDER.start_at): a proper ancestor of the start state
+            fl['o:@state'] = 'T'
+            z.le('0', 'D:@state', -1)
         if self.track_source:
             # between steps the cursor is the current state (HSM-CURSOR.I1): both are depth 0 of the active chain; nothing exited yet
             fl['s:' + CUR] = 'S'
@@ -506,4 +573,9 @@ class ContentAnalysis(BufferAnalysis):
             z.assign('NX', '0', 0)
         rets = []
         self.block(self.entry.node.body, St({tuple(sorted(fl.items(), key=lambda kv: kv[0])): z}), fr, {'returns': rets})
+        # raise statements the abstract execution never reached are unreachable for every chart that follows the protocol
+        for f_, fr_ in self.frames.items():
+            for n in ast.walk(f_.node):
+                if isinstance(n, ast.Raise) and self.key_of('O7-noraise', fr_, n) not in self.obl:
+                    self.rec('O7-noraise', fr_, n, 'OK', 'not reachable')
         return [self.obl[k] for k in self.order]
